@@ -375,6 +375,9 @@ type verifC13Key struct {
 	typ      int64
 	uid      string
 	task     string
+	// generation: the person-directory generation a motif expects its row to be at
+	// (a generator bias for completion commands, not an oracle input)
+	generation uint64
 }
 
 func verifC13CmdGen() *rapid.Generator[verifC13Cmd] {
@@ -413,15 +416,15 @@ var verifC13Motifs = [][]string{
 // inside the same apply batch.
 var verifC13PersonMotifs = [][]string{
 	{"admitPersonDirectory", "deleteChannel", "admitPersonDirectory"},
-	{"admitPersonDirectory", "completePersonDirectory", "deleteChannel", "admitPersonDirectory", "completePersonDirectory"},
+	{"admitPersonDirectory", "completePersonDirectory", "upsertChannel", "deleteChannel", "admitPersonDirectory", "completePersonDirectory", "admitPersonDirectory"},
 	{"createRuntimeMetaBatch", "deleteChannel", "upsertRuntimeMeta", "createRuntimeMetaBatch"},
 	{"upsertChannel", "upsertRuntimeMeta", "deleteChannel", "advanceRetention", "admitPersonDirectory"},
-	{"admitPersonDirectory", "ensurePersonMemberships", "completePersonDirectory", "ensurePersonMemberships"},
+	{"admitPersonDirectory", "ensurePersonMemberships", "completePersonDirectory", "patchChannelFlags", "ensurePersonMemberships"},
 	{"admitPersonDirectory", "deleteChannel", "deleteChannel", "completePersonDirectory", "admitPersonDirectory"},
 	{"admitPersonDirectory", "deleteRuntimeMeta", "deleteChannel", "admitPersonDirectory", "upsertRuntimeMeta"},
 	{"upsertRuntimeMeta", "createChannel", "deleteChannel", "upsertRuntimeMeta", "deleteChannel", "admitPersonDirectory"},
-	{"admitPersonDirectory", "completePersonDirectory", "admitPersonDirectory", "upsertChannel", "completePersonDirectory"},
-	{"createRuntimeMetaBatch", "completePersonDirectory", "patchChannelFlags", "createRuntimeMetaBatch", "deleteChannel"},
+	{"deleteChannel", "admitPersonDirectory", "completePersonDirectory", "admitPersonDirectory", "upsertChannel", "completePersonDirectory"},
+	{"deleteChannel", "createRuntimeMetaBatch", "completePersonDirectory", "patchChannelFlags", "createRuntimeMetaBatch", "deleteChannel"},
 }
 
 // verifC13StepGen draws either one command or one motif on a pinned row.
@@ -432,20 +435,39 @@ func verifC13StepGen() *rapid.Generator[[]verifC13Cmd] {
 		}
 		key := verifC13Key{hashSlot: verifC13Pick(t, "hashSlot", verifC13Owned), task: verifC13Pick(t, "task", verifC13Tasks)}
 		var motif []string
-		if which := rapid.IntRange(0, len(verifC13Motifs)+len(verifC13PersonMotifs)-1).Draw(t, "whichMotif"); which < len(verifC13Motifs) {
-			motif = verifC13Motifs[which]
+		if rapid.IntRange(0, 9).Draw(t, "personMotif") < 6 {
+			motif = verifC13Motifs[rapid.IntRange(0, len(verifC13Motifs)-1).Draw(t, "whichMotif")]
 			key.channel, key.typ = verifC13PickRow(t)
 			key.uid = verifC13Pick(t, "uid", verifC13Users)
 		} else {
-			motif = verifC13PersonMotifs[which-len(verifC13Motifs)]
+			motif = verifC13PersonMotifs[rapid.IntRange(0, len(verifC13PersonMotifs)-1).Draw(t, "whichPersonMotif")]
 			key.channel, key.typ = verifC13Pick(t, "personChannel", verifC13PersonChannels), 1
 			key.uid = verifC13PersonUID(t, key.channel)
 		}
 		out := make([]verifC13Cmd, 0, len(motif))
+		live := false
 		for _, class := range motif {
 			c := verifC13CmdOf(t, class, key)
 			c.motif = true
 			out = append(out, c)
+			if key.typ == 1 {
+				// follow the generation fence of a row that started absent: it is 1 once
+				// runtime metadata exists and advances when the live channel is deleted
+				switch class {
+				case "admitPersonDirectory", "createRuntimeMetaBatch":
+					if key.generation == 0 {
+						key.generation = 1
+					}
+					live = true
+				case "deleteRuntimeMeta":
+					key.generation = 0
+				case "deleteChannel":
+					if live && key.generation != 0 {
+						key.generation++
+					}
+					live = false
+				}
+			}
 		}
 		return out
 	})
@@ -698,6 +720,9 @@ func verifC13CmdOf(t *rapid.T, class string, key verifC13Key) verifC13Cmd {
 					itemHashSlot = c.hashSlot
 				}
 				generation := uint64(rapid.SampledFrom([]int{1, 1, 1, 1, 2, 2, 3}).Draw(t, "generation"))
+				if i == 0 && key.generation != 0 && rapid.IntRange(0, 3).Draw(t, "expectedGeneration") > 0 {
+					generation = key.generation
+				}
 				if id := fmt.Sprint(itemHashSlot, ch); !seen[id] {
 					seen[id] = true
 					items = append(items, PersonDirectoryCompletionBatchItem{HashSlot: itemHashSlot, ChannelID: ch, ChannelType: 1, Generation: generation})
@@ -819,7 +844,7 @@ type verifC13Stats struct {
 	// batches in which such a bump was followed by a reader of that row's runtime metadata
 	bumpThenReadInBatch, bumpThenAdmitInBatch int
 	// batches in which a successful person-directory completion was followed by
-	// another command on a person channel row
+	// another command drawn for the same person channel row
 	completeThenPersonInBatch int
 }
 
@@ -855,7 +880,7 @@ func verifC13ApplyPartition(rt *rapid.T, name string, r *verifC13Replica, log []
 		cmds := make([]multiraft.Command, 0, hi-lo)
 		conditional, stale := false, false
 		bumped, bumpThenRead, bumpThenAdmit := map[string]bool{}, false, false
-		completed, completeThenPerson := false, false
+		completed, completeThenPerson := map[string]bool{}, false
 		for i := lo; i < hi; i++ {
 			cmds = append(cmds, verifC13Command(log[i], uint64(i+1)))
 			conditional = conditional || log[i].conditional
@@ -867,8 +892,10 @@ func verifC13ApplyPartition(rt *rapid.T, name string, r *verifC13Replica, log []
 			if i < len(st.bumpRow) && st.bumpRow[i] != "" {
 				bumped[st.bumpRow[i]] = true
 			}
-			completeThenPerson = completeThenPerson || (completed && log[i].typ == 1)
-			completed = completed || (log[i].class == "completePersonDirectory" && string(want[i]) == ApplyResultOK)
+			completeThenPerson = completeThenPerson || (completed[verifC13Row(log[i].hashSlot, log[i].channel, log[i].typ)] && log[i].class != "completePersonDirectory")
+			if log[i].class == "completePersonDirectory" && string(want[i]) == ApplyResultOK {
+				completed[verifC13Row(log[i].hashSlot, log[i].channel, 1)] = true
+			}
 		}
 		if completeThenPerson {
 			st.completeThenPersonInBatch++
@@ -1221,7 +1248,7 @@ func TestVerifC13BatchTransparency(t *testing.T) {
 				break
 			}
 		}
-		k.LabelIf(st.completeThenPersonInBatch > 0, "one batch: successful completion then another person-row command")
+		k.LabelIf(st.completeThenPersonInBatch > 0, "one batch: successful completion then another command on that person row")
 		k.LabelIf(st.bumpThenReadInBatch > 0, "one batch: generation bump then a runtime-meta reader of that row")
 		k.LabelIf(st.bumpThenAdmitInBatch > 0, "one batch: generation bump then re-admission of that person channel")
 		if installKind != "" {
